@@ -135,7 +135,11 @@ def _impl(sc):
             except Exception as e:
                 rec['ok'] = False
                 rec['exc'] = type(e).__name__ + ': ' + str(e)[:200]
-            rec['obs'] = store.canon_obs(store.obs_all(wn))
+            if sc['kind'] == 'odd-version':
+                # specifiers cannot name these lexicons: list them from the table, the content is in the dump
+                rec['obs'] = [{'spec': f'{i}:{vv}'} for i, vv in wn._db.connect().execute('SELECT id, version FROM lexicons ORDER BY rowid')]
+            else:
+                rec['obs'] = store.canon_obs(store.obs_all(wn))
             dd = c06.dump(wn._db.connect())
             rec['dump'] = hashlib.sha256(json.dumps(dd, sort_keys=True).encode()).hexdigest()
             # repetition
@@ -250,7 +254,7 @@ def gen_tree(rng, depth=0):
 def gen(rng):
     g = docs.Gen(rng, hostile=0.1, rich=0.5)
     v = rng.choice(['1.0', '1.1', '1.3'])
-    kind = rng.choice(['plain', 'plain', 'two', 'ext-no-base', 'mixed-installed', 'frames', 'ext-with-base'])
+    kind = rng.choice(['plain', 'plain', 'two', 'ext-no-base', 'mixed-installed', 'frames', 'ext-with-base', 'odd-version'])
     pre = None
     a = g.lexicon('a', '1', v)
     if kind == 'plain':
@@ -264,6 +268,19 @@ def gen(rng):
         a = g.lexicon('a', '1', v)
         pre = docs.resource([a], v)
         res = docs.resource([g.extension('ax', a, '1', v)], v)     # the base is installed: the extension is added
+    elif kind == 'odd-version':
+        # id and version are compared verbatim by the skip rules: a blank or a glob character in a version
+        # is neither a separator nor a pattern
+        v = rng.choice(['1.1', '1.3'])
+        odd = rng.choice(['1.0 beta', '1[rc]', '1*', '1.?', '1 2'])
+        if rng.random() < 0.5:
+            plain_v = {'1.0 beta': '1.0', '1[rc]': '1r', '1*': '1.5', '1.?': '1.2', '1 2': '2'}[odd]
+            pre = docs.resource([g.lexicon('a', plain_v, v)], v)      # matched by the odd version read as pattern / list
+            res = docs.resource([g.lexicon('a', odd, v)], v)
+        else:
+            a = g.lexicon('a', odd, v)
+            pre = docs.resource([a], v)
+            res = docs.resource([a, g.extension('ax', a, '1', v)], v)  # a is skipped, its extension is added
     elif kind == 'ext-no-base':
         ve = '1.1'
         zz = g.lexicon('zz', '9', ve)
